@@ -11,7 +11,7 @@
    handle_frame is not reached (C05/C06). *)
 From Coq Require Import NArith Arith List String.
 From Rodbus Require Import Base.Outcome Base.ServerTypes Model.Server Model.ServerRender Model.ServerExec Spec.Modbus
-  Proofs.ServerParse Proofs.ServerProofs Proofs.ServerProps Proofs.ServerTheorems.
+  Proofs.ServerParse Proofs.ServerProofs Proofs.ServerProps Proofs.ServerTheorems Proofs.AuthzTies Proofs.ReaderTies.
 Import ListNotations.
 Local Open Scope N_scope.
 
@@ -60,6 +60,27 @@ Theorem C02_no_effect : forall (St : Type) (H : handler St) l a units fr, frame_
   spec_calls H a units fr = [] -> same_units (units_of (handle_frame H l a units fr)) units.
 Proof. exact @no_effect_frame. Qed.
 Print Assumptions C02_no_effect.
+
+(* the handlers see the requests of the STREAM: the receive buffer's compaction moves the pending bytes before it
+   rewinds both indices, next_frame keeps the parser state between calls and resets it when a framing error is
+   returned (the same reader serves the re-opened RTU port). Regenerated from common/buffer.rs, common/frame.rs. *)
+Theorem C02_reader_loop_shape :
+  Gen.ReaderLoop.next_frame_resets_parser_on_entry = false /\ Gen.ReaderLoop.next_frame_resets_parser_on_error = true /\
+  Gen.ReaderLoop.read_some_compaction =
+    ["let length = self.len()"; "self.buffer.copy_within(self.begin..self.end, 0)"; "self.begin = 0"; "self.end = length"]%string.
+Proof. exact reader_loop_shape. Qed.
+Print Assumptions C02_reader_loop_shape.
+
+(* on servers created through the C ABI the permission asked for is the one of the request's own kind: each
+   method of the authorization adapter calls the C callback of its own name (regenerated table) *)
+Theorem C02_ffi_wrapper_own_callback :
+  Forall forwards_faithfully Gen.FfiTables.authz_wrappers /\
+  map Gen.FfiTables.aw_method Gen.FfiTables.authz_wrappers =
+    ["read_coils"; "read_discrete_inputs"; "read_holding_registers"; "read_input_registers";
+     "write_single_coil"; "write_single_register"; "write_multiple_coils"; "write_multiple_registers"]%string /\
+  Gen.FfiTables.authz_wrapper_fields = ["inner"]%string.
+Proof. exact ffi_wrapper_forwards. Qed.
+Print Assumptions C02_ffi_wrapper_own_callback.
 
 (* non-vacuity: malformed / over-limit / wrong-unit / unknown-function frames cause no call; the
    write is seen once with its decoded items; the read stops at the failing address 2 *)
